@@ -1240,3 +1240,29 @@ TWINS = list(TWINS) + [
       "    t_offsets -= t_offsets.min()\n")),
 ]
 
+
+_SORT_OLD = ("            key_paths.append((key, pp))\n"
+             "    sorted_paths = [p[1] for p in sorted(key_paths, "
+             "key=lambda x: x[0])]\n")
+_SORT_NEW = ("            key_paths.append(_KeyedPath(key=key, path=pp))\n"
+             "    sorted_paths = [\n"
+             "        kp.path for kp in sorted(key_paths, "
+             "key=lambda kp: kp.key)]\n")
+
+TWINS = list(TWINS) + [
+    ("join: (key, path) pairs as a module-level namedtuple", JOIN,
+     [("import argparse\n", "import argparse\nimport collections\n"),
+      ("def join(\n",
+       '_KeyedPath = collections.namedtuple("_KeyedPath", ["key", "path"])'
+       "\n\n\ndef join(\n"),
+      (_SORT_OLD, _SORT_NEW)]),
+    ("join: (key, path) pairs as a typing.NamedTuple class", JOIN,
+     [("from typing import Dict, List\n",
+       "from typing import Dict, List, NamedTuple\n"),
+      ("def join(\n",
+       "class _KeyedPath(NamedTuple):\n"
+       '    """input path with its sorting key"""\n'
+       "    key: tuple\n    path: object\n\n\ndef join(\n"),
+      (_SORT_OLD, _SORT_NEW)]),
+]
+
